@@ -86,6 +86,20 @@ size_t HashBBdh::getSize() {
   return mem;
 }
 
+void HashBBdh::save(std::ostream &fp) {
+  // load() replaces the table by a bitmap of the offsets: write one entry
+  // per cell again, which is what every loader expects
+  LogSequence plain(hashbits, tsize);
+  for (size_t i = 0; i < tsize; i++)
+    if (b_ht->access(i))
+      plain.setField(i, offsets->select1(b_ht->rank1(i)));
+
+  saveValue(fp, tsize);
+  saveValue(fp, n);
+  plain.save(fp);
+  b_ht->save(fp);
+}
+
 HashBBdh *HashBBdh::load(std::istream &fp) {
   HashBBdh *h_new = new HashBBdh();
 
@@ -113,7 +127,9 @@ HashBBdh *HashBBdh::load(std::istream &fp) {
   h_new->offsets = new BitSequenceRRR(*offsets);
 
   delete offsets;
+  h_new->hashbits = h_new->hash->getNumbits();
   delete h_new->hash;
+  h_new->hash = NULL;
 
   return h_new;
 }
